@@ -6,7 +6,7 @@
 //
 // Output (stdout), one record per line:
 //   H <scenario> <count> <first-schedule> | ev ; ev ; ...   one per DISTINCT observable history
-//   F <scenario> <schedule> | <failure text> | ev ; ev ; ... one per failing execution (first 20)
+//   F <scenario> <schedule> | <failure text> | ev ; ev ; ... one per failing execution (first 20 per distinct failure text)
 //   S <scenario> executions=N distinct=N with_preemption=N failures=N deadlocks=N exhausted=0|1 max_steps=N
 #pragma once
 #include "rt.hpp"
@@ -51,13 +51,14 @@ inline int main_impl(int argc, char** argv) {
   for (auto& s : registry()) {
     if (!scn.empty() && scn != "all" && s.name != scn) continue;
     std::map<std::string, std::pair<long, std::string>> hist;
-    int nfail = 0;
+    std::map<std::string, int> nfail;   // per distinct failure text (a frequent failure must not hide a rare one)
     rt::Stats st = rt::explore(s.body, opt, [&](const rt::Execution& e) {
       std::string h = join_hist(e.history);
       auto it = hist.find(h);
       if (it == hist.end()) hist.emplace(h, std::make_pair(1L, join_sched(e.choices))); else it->second.first++;
-      if (!e.failures.empty() && nfail++ < 20) {
+      if (!e.failures.empty()) {
         std::string f; for (auto& x : e.failures) { if (!f.empty()) f += " && "; f += x; }
+        if (nfail[f]++ < 20 && nfail.size() <= 50)
         printf("F %s %s | %s | %s\n", s.name.c_str(), join_sched(e.choices).c_str(), f.c_str(), h.c_str());
       }
     });
